@@ -116,7 +116,10 @@ def pool(field):
     if field == "html_meta":
         return [({}, V), ({"a": "b"}, V), ({"description lang=en": "d"}, V), ({"a": 1}, I), ({1: "a"}, I), ([], I), ("x", I), (None, I), ({"a": None}, I)]
     if field == "substitutions":
-        return [({}, V), ({"a": 1}, V), ({"a": [1], "b": "s", "c": None}, V), ({1: "a"}, I), ([], I), ("x", I), (None, I)]
+        import platform
+
+        # (the last value is a namedtuple subclass with its own __new__: valid, picklable, but not re-buildable by calling its type)
+        return [({}, V), ({"a": 1}, V), ({"a": [1], "b": "s", "c": None}, V), ({"host": platform.uname()}, V), ({1: "a"}, I), ([], I), ("x", I), (None, I)]
     if field == "sub_delimiters":
         return [(("{", "}"), V), (["[", "]"], V), (("{{", "}}"), I), (("{",), I), ("ab", I), (["a", 1], I), (None, I), (("a", "b", "c"), I), ({"a", "b"}, I)]
     if field == "inventories":
